@@ -59,7 +59,15 @@ func generateRestorer(names []string) error {
 						switch frag := frag.(type) {
 						case data.Init:
 							g.Line().Commentf("Init: %s", frag.Name)
+							g.If(
+								List(Id("_"), Id("ok")).Op(":=").Id("r").Dot("Ast").Dot("Nodes").Index(frag.Field.Get("n")),
+								Id("ok").Op("&&").Op("!").Id("allowDuplicate"),
+							).Block(
+								Panic(Qual("fmt", "Sprintf").Call(Lit("duplicate node: %#v"), frag.Field.Get("n"))),
+							)
 							g.Add(frag.Field.Get("out")).Op("=").Op("&").Qual("go/ast", frag.Type.TypeName()).Values()
+							g.Id("r").Dot("Ast").Dot("Nodes").Index(frag.Field.Get("n")).Op("=").Add(frag.Field.Get("out"))
+							g.Id("r").Dot("Dst").Dot("Nodes").Index(frag.Field.Get("out")).Op("=").Add(frag.Field.Get("n"))
 						case data.Decoration:
 							g.Line().Commentf("Decoration: %s", frag.Name)
 							g.Id("r").Dot("applyDecorations").Call(Id("out"), Lit(frag.Name), Id("n").Dot("Decs").Dot(frag.Name), Do(func(s *Statement) { s.Lit(frag.Name == "End") }))
